@@ -1,6 +1,6 @@
 """C11 — Packets are parsed independently; generators and definitions do not interfere.
 
-Kernel E-hist + interleavings.  (i) every stream of <= 4 packets over an 11-packet palette (two
+Kernel E-hist + interleavings.  (i) every stream of <= 4 packets (quick tier: every other stream of 4) over a 12-packet palette (two
 recognised APIDs with different layouts, an unrecognised APID, a too-long and a too-short packet)
 under all 8 option combinations equals the concatenation of the per-packet solo results; (ii) every
 lattice-path interleaving of next() calls over 2 (and 3) generators sharing one definition gives
@@ -42,7 +42,7 @@ def the_doc():
     )
     prs = header_params() + (
         Param("A_LEN", "U3"), Param("A_PAD", "U5"), Param("A_BLOB", "BLOB_T"), Param("A_CAL", "CAL_T"), Param("A_STR", "STR_T"),
-        Param("B_F", "F32_T"), Param("B_E", "E_T"), Param("B_P", "U6"), Param("B_S", "S16_T"), Param("S_BYTE", "U8"), Param("Z_E", "EF_T"),
+        Param("B_F", "F32_T"), Param("B_E", "E_T"), Param("B_P", "U6"), Param("B_S", "S16_T"), Param("S_BYTE", "U8"), Param("Z_E", "EF_T"), Param("Q_B", "U8"),
     )
     conts = (
         Container("CCSDSPacket", header_entries(), abstract=True),
@@ -51,6 +51,10 @@ def the_doc():
         Container("B", (("p", "B_F"), ("p", "B_E"), ("p", "B_P"), ("p", "B_S")), base="CCSDSPacket", criteria=(Cmp("PKT_APID", "==", "2"),)),
         Container("S", (("p", "S_BYTE"),), base="CCSDSPacket", criteria=(Cmp("PKT_APID", "==", "4"),)),
         Container("Z", (("p", "Z_E"),), base="CCSDSPacket", criteria=(Cmp("PKT_APID", "==", "5"),)),
+        # a CONCRETE container with two children whose criteria overlap at Q_B == 2: that packet fits both and is not recognised
+        Container("Q", (("p", "Q_B"),), base="CCSDSPacket", criteria=(Cmp("PKT_APID", "==", "6"),)),
+        Container("QA", (), base="Q", criteria=(Cmp("Q_B", ">=", "1"),)),
+        Container("QB", (), base="Q", criteria=(Cmp("Q_B", "==", "2"),)),
         # stand-alone container: reachable only when a call names it as its root (root_container_name=...)
         Container("RAWDUMP", (("p", "S_BYTE"), ("p", "A_CAL"))),
         # an abstract container without entries and without children: as a per-call root, every packet is unrecognised before any field is read
@@ -75,7 +79,11 @@ def palette_packets():
     seg_last = framing.mk_packet(b"\x72", apid=4, seqflags=2, seqcount=41)
     z_pos = framing.mk_packet(bytes.fromhex("00000000"), apid=5, seqcount=50)
     z_neg = framing.mk_packet(bytes.fromhex("80000000"), apid=5, seqcount=51)
-    return [a_clean, b_clean, unrec, a_long, a_short, unrec_same_apid, a_raising, seg_first, seg_last, z_pos, z_neg]
+    q_amb = framing.mk_packet(b"\x02", apid=6, seqcount=60)     # fits QA and QB
+    return [a_clean, b_clean, unrec, a_long, a_short, unrec_same_apid, a_raising, seg_first, seg_last, z_pos, z_neg, q_amb]
+
+
+AMBIGUOUS_INDEX = 11
 
 
 def obs_item(p):
@@ -140,6 +148,15 @@ def _task_streams(task):
                 # "on its own": a fresh definition object per packet, so that nothing an earlier packet left behind can leak in
                 fresh = load_doc(doc) if task["via"] == "xml" else build_objects(doc)
                 solo[(oi, pi)] = run_stream(fresh, p, opts)[0]
+                if pi == AMBIGUOUS_INDEX and not opts["ccsds_headers_only"] and "root_container_name" not in opts:
+                    # an absolute expectation (the comparison with the stream is relative): a packet that fits two children is reported
+                    # as an error object when asked for, and not at all otherwise
+                    kinds = [x[0] for x in solo[(oi, pi)]]
+                    want_kinds = ["error"] if opts["yield_unrecognized_packet_errors"] else []
+                    t.evals += 1
+                    if kinds != want_kinds:
+                        t.violation({"kind": "ambiguous-packet-not-reported", "opts": oi}, {"seq": [pi], "opts": opts, "via": task["via"], "ambiguous": True},
+                                    expected=want_kinds, observed=kinds, note="a packet that satisfies two children of a concrete container is unrecognised")
         with case_alarm(900):
             for seq in task["seqs"]:
                 stream = b"".join(pal[i] for i in seq)
@@ -506,7 +523,7 @@ def _task_siblings(task):
 
 def run(ctx):
     n = len(palette_packets())
-    seqs = [s for k in range(1, 5) for s in itertools.product(range(n), repeat=k)]
+    seqs = [s for k in range(1, 5) for s in itertools.product(range(n), repeat=k) if not (ctx.quick and k == 4 and (sum(s) + s[0]) % 2)]
     tasks = [{"seqs": ch, "via": "xml"} for ch in chunked(seqs, 24)] + [{"seqs": seqs[::7], "via": "objects"}]
     tally = fan_out(_task_streams, tasks, jobs=ctx.jobs, seed=ctx.seed)
     ns = len(stream_specs())
@@ -529,7 +546,7 @@ def run(ctx):
         "transitions": tally.transitions,
         "traces_validated_against_impl": tally.traces,
         "exhaustive": True,
-        "bound": (f"(i) every stream of <= 4 packets over an 11-packet palette ({len(seqs)} streams) x all 8 combinations of parse_bad_pkts / "
+        "bound": (f"(i) every stream of <= 4 packets (quick tier: every other stream of 4) over a 12-packet palette ({len(seqs)} streams) x all 8 combinations of parse_bad_pkts / "
                   "yield_unrecognized_packet_errors / ccsds_headers_only (+ 2 with root_container_name naming a stand-alone container for that call, + 2 headers-only runs with combine_segmented_packets; "
                   "every stream of <= 3 packets over FIRST/LAST segments whose counts follow on or differ by 1025 / 4097 / wrap, with combine_segmented_packets) "
                   "vs. per-packet solo results on fresh definitions; (ii) k=2: every ordered pair of 7 generators "
